@@ -76,6 +76,14 @@ def generate(batch: str, r: Rng, idx: int, tier: str) -> Dict[str, Any]:
     code, starts = core.gen_program(r.child("prog"), n, canon=True,
                                     avoid=_divergent_opcodes() if batch == "lock-tail" else ())
     state = core.gen_state(r.child("state"))
+    if r.chance(1, 4):
+        # decimal data: every byte of the internal memory and of the data region is two BCD digits (BP/PX/PY
+        # keep their values), so that DADL/DSBL/DSLL/DSRL are compared on the operands they are meant for
+        def bcd(b):
+            return (((b >> 4) % 10) << 4) | ((b & 15) % 10)
+        state["imem"] = [b if 0xEC <= i <= 0xEE else bcd(b) for i, b in enumerate(state["imem"])]
+        state["data"] = [bcd(b) for b in state["data"]]
+        state["regs"]["BA"] = (bcd(state["regs"]["BA"] >> 8) << 8) | bcd(state["regs"]["BA"] & 0xFF)
     steps = r.choice([20, 60, 120])
     faults: List[list] = []
     if batch in ("lock", "lock-tail"):
@@ -125,7 +133,7 @@ def execute(scn: Dict[str, Any]) -> Dict[str, Any]:
     while done < scn["steps"]:
         nxt = faults[fi][0] if fi < len(faults) else scn["steps"]
         seg = max(0, min(nxt, scn["steps"]) - done)
-        recs = core.py_run(emu, bus, seg, stop_at=core.EXCLUDED, block_limit=BLOCK_LIMIT) if seg else []
+        recs = core.py_run(emu, bus, seg, stop_at=core.EXCLUDED, block_limit=BLOCK_LIMIT, features=True) if seg else []
         for rec in recs:
             for a, v in rec[13]:
                 cum[a] = v
@@ -252,6 +260,37 @@ def _edge_pointer(scn, prev) -> bool:
     return any(p <= 3 or p >= 0xFFFFC for p in ptrs)
 
 
+BCD_OPS = frozenset([0xC4, 0xC5, 0xD4, 0xD5, 0xEC, 0xFC])
+
+
+def _circumstance(scn, a, b, prev, op: int, bs: List[int], field: str) -> Dict[str, Any]:
+    """Narrow, observable circumstances under which a recorded divergence is known to occur; a divergence of a
+    listed opcode outside its circumstance is reported as new."""
+    out: Dict[str, Any] = {}
+    i_before = prev[4] if prev is not None else scn["state"]["regs"]["I"]
+    feat = a[16] if len(a) > 16 and isinstance(a[16], dict) else {}
+    if op in core.BLOCK_OPS:
+        if i_before == 0:
+            out["excuse"] = "I0"                  # Python: no iteration; Rust: 65536
+        elif feat.get("ov"):
+            out["excuse"] = "ov"                  # an internal-memory pointer ran over 0x00/0xFF
+        elif feat.get("arw"):
+            out["excuse"] = "arw"                 # the instruction rewrote BP/PX/PY while using them
+        elif op in BCD_OPS and feat.get("nbcd"):
+            out["excuse"] = "nbcd"                # operands that are not BCD digits
+        if field == "I" and a[4] == 0 and b[4] == i_before:
+            out["pattern"] = "py_zero_rs_kept"
+    if op in (0x2E, 0x4F, 0xFE) and field == "writes":
+        pw, rw = dict(map(tuple, a[13])), dict(map(tuple, b[13]))
+        if set(pw) - {0x1000FB} == set(rw) - {0x1000FB} and all(pw[k] == rw[k] or pw[k] == (rw[k] & 3) for k in rw if k in pw):
+            out["pattern"] = "f_low2"
+    if op in (0xB4, 0xB5, 0xB6) and len(bs) >= 2:
+        sel = bs[-1] if len(bs) == 2 else bs[(1 if bs[0] in core.PRES else 0) + 1]
+        if (sel & 7) == (op & 7) and (sel >> 4) in (2, 3):
+            out["pattern"] = "ptr_is_src"
+    return out
+
+
 def _viol(scn, k, field, a, b, msg, prev=None):
     pc = a[0]
     bs = _ins_bytes(a)
@@ -259,6 +298,7 @@ def _viol(scn, k, field, a, b, msg, prev=None):
     op = bs[1] if pre is not None and len(bs) > 1 else (bs[0] if bs else a[1])
     cls = "length" if field == "length" else "diverge"
     where = {"field": field, "opcode": f"{op:02X}", "pre": pre is not None}
+    where.update(_circumstance(scn, a, b, prev, op, bs, field))
     if _edge_pointer(scn, prev):
         where["edge_pointer"] = True
     return {"cls": cls, "executor": "py+rs-core", "where": where,
